@@ -5,7 +5,8 @@ package leanhelix
 
 // Verification hooks are compiled out unless the build tag "verif" is set (see verif_on.go).
 
-func verifWorkerIdle(lh *WorkerLoop)                            {}
-func verifMainIdle(m *MainLoop)                                 {}
-func verifMainEvent(m *MainLoop, ev string, h uint64, v uint64) {}
-func verifWorkerEvent(lh *WorkerLoop, ev string)                {}
+func verifWorkerIdle(lh *WorkerLoop)                                {}
+func verifMainIdle(m *MainLoop)                                     {}
+func verifMainEvent(m *MainLoop, ev string, h uint64, v uint64)     {}
+func verifWorkerEvent(lh *WorkerLoop, ev string)                    {}
+func verifWorkerStep(lh *WorkerLoop, ev string, h uint64, v uint64) {}
